@@ -75,7 +75,10 @@ class _dtype_value_context:
         )
 
     def __exit__(self, *args):
-        self.__class__._set_value(self._orig_float_value, self._orig_double_value, self._orig_half_value)
+        # restore unconditionally: _set_value skips None, which would leak a value set over a None default
+        self.__class__._global_float_value = self._orig_float_value
+        self.__class__._global_double_value = self._orig_double_value
+        self.__class__._global_half_value = self._orig_half_value
         return False
 
 
